@@ -30,3 +30,41 @@ Proof.
   - rewrite map_map. apply map_ext_in. intros k Hk. apply in_seq in Hk. unfold emit_order, lenN.
     rewrite map_length, (KNNgramSet.ents_table n o (events c) k) by lia. reflexivity.
 Qed.
+
+(* ParsePruning (lmplz_main.cc) only lets non-decreasing threshold vectors through, padded to the order *)
+Lemma nondecreasing_nth : forall l i j, nondecreasing l = true -> (i <= j)%nat -> (j < length l)%nat -> (nth i l 0 <= nth j l 0)%N.
+Proof.
+  induction l as [|x l IH]; intros i j H Hij Hj; [simpl in Hj; lia|].
+  destruct l as [|y l'].
+  - simpl in Hj. assert (i = 0%nat) by lia. assert (j = 0%nat) by lia. subst. simpl. lia.
+  - cbn [nondecreasing] in H. apply andb_true_iff in H. destruct H as [Hxy Hrest]. apply N.leb_le in Hxy.
+    destruct i as [|i]; destruct j as [|j]; try lia.
+    + cbn [nth]. specialize (IH 0%nat j Hrest ltac:(lia) ltac:(simpl in *; lia)). cbn [nth] in IH. lia.
+    + cbn [nth]. apply IH; [exact Hrest|lia|simpl in *; lia].
+Qed.
+
+Lemma nd_repeat : forall x k, nondecreasing (x :: repeat x k) = true.
+Proof. induction k as [|k IH]; [reflexivity|]. cbn [repeat]. cbn [nondecreasing]. rewrite N.leb_refl. exact IH. Qed.
+
+Lemma nondecreasing_pad : forall l k, l <> [] -> nondecreasing l = true -> nondecreasing (l ++ repeat (last l 0%N) k) = true.
+Proof.
+  induction l as [|x l IH]; intros k Hne H; [congruence|]. destruct l as [|y l'].
+  - cbn [last app]. apply nd_repeat.
+  - cbn [nondecreasing] in H. apply andb_true_iff in H. destruct H as [Hxy Hrest].
+    change ((x :: y :: l') ++ repeat (last (x :: y :: l') 0%N) k) with (x :: ((y :: l') ++ repeat (last (y :: l') 0%N) k)).
+    specialize (IH k ltac:(discriminate) Hrest). cbn [app] in *. cbn [nondecreasing]. rewrite Hxy. exact IH.
+Qed.
+
+Lemma parse_pruning_mono : forall p n t o, parse_pruning p n = Some t -> o_prune o = t -> thr_mono o n /\ length t = n.
+Proof.
+  intros p n t o H Ho. unfold parse_pruning in H. destruct p as [|x p'].
+  - injection H as <-. split; [|apply repeat_length]. intros j k Hjk Hk. unfold thr. rewrite Ho.
+    rewrite !nth_repeat. lia.
+  - destruct ((length (x :: p') <=? n)%nat && nondecreasing (x :: p')) eqn:E; [|discriminate].
+    set (q := x :: p') in *.
+    assert (Ht : t = q ++ repeat (last q 0%N) (n - length q)) by congruence. clear H.
+    apply andb_true_iff in E. destruct E as [El End]. apply Nat.leb_le in El.
+    assert (Hlen : length t = n) by (rewrite Ht, app_length, repeat_length; lia).
+    split; [|exact Hlen]. intros j k Hjk Hk. unfold thr. rewrite Ho, Ht.
+    apply nondecreasing_nth; [apply nondecreasing_pad; [discriminate|exact End]|lia|rewrite <- Ht; lia].
+Qed.
